@@ -70,7 +70,16 @@ _cache = {}
 def load(repo=None):
     fdir = build.build_facts(repo or build.REPO)
     if fdir not in _cache:
-        _cache[fdir] = Facts(fdir)
+        F = Facts(fdir)
+        # functions that did not exist on the tree the rules were confirmed on are analysed in place at their call sites
+        kp = os.path.join(os.path.dirname(os.path.dirname(os.path.abspath(__file__))), "known_fns.txt")
+        F.new_helpers = {"new": [], "inlined": [], "kept": []}
+        if os.path.exists(kp) and not os.environ.get("GPA_NO_INLINE_NEW"):
+            with open(kp) as f:
+                known = {l.strip() for l in f if l.strip()}
+            from . import inline
+            F.new_helpers = inline.inline_new_helpers(F, known, set(build.CRATES))
+        _cache[fdir] = F
     return _cache[fdir]
 
 
